@@ -553,6 +553,29 @@ def check_protocol(repo: Repo, rep: Report, h: Harness, jp: JavaProtocol) -> Non
             else:
                 rep.finding("SGR-3", SUGAR, "SugarLikeBackend.solve", "answer-mode reply parsing",
                             f"reply {reply_sat(descs[0]) if descs else ''!r} gives result {r!r} and sol {sols!r}; expected True and [-2, True, False, 10, True]")
+            # a program whose last declared variable is an integer: the wrapper still prints all integers first, then all booleans, so
+            # the line of the highest id is not the last line of the reply
+            vs2 = [h.var("BoolVar", 0), h.var("IntVar", 1, 0, 9), h.var("BoolVar", 2), h.var("IntVar", 3, -2, 5)]
+            b2 = h.cw.new(cls, vs2)
+            model2 = {0: True, 1: 7, 2: False, 3: -1}
+
+            def reply2(desc: str) -> str:
+                nm = decl_names(desc)
+                lines = [a_sat]
+                for i in (1, 3, 0, 2):
+                    lines.append(instantiate(a_tmpl[0 if not isinstance(model2[i], bool) else -1], nm.get(i, "?"), jval(model2[i])))
+                lines.append(a_term)
+                return "\n".join(lines) + "\n"
+
+            h.reply = reply2
+            r2 = h.cw.method(b2, "solve")()
+            sols2 = [v.attrs.get("sol") for v in vs2]
+            if r2 is True and sols2 == [True, 7, False, -1]:
+                rep.ok("SGR-3", f"{cls}.solve: variables (bool, int, bool, int) - the reply lists integers first - are all read back")
+            else:
+                rep.finding("SGR-3", SUGAR, "SugarLikeBackend.solve", "answer-mode reply, last declared variable an integer",
+                            f"variables declared as (bool #0, int #1, bool #2, int #3); reply {reply2(chr(10).join(h.cw.call('_convert_variable', v) for v in vs2))!r} "
+                            f"gives {r2!r} / {sols2!r}; expected True / [True, 7, False, -1]")
             # the UNSAT reply after a SAT reply on the same backend: the assignment of the earlier reply must not stay in sol
             seen2: List[str] = []
             h.reply = lambda desc: (seen2.append(desc), a_unsat + "\n")[1]
